@@ -9,16 +9,77 @@ LEVEL_NOTE = ("Trusted: Lean 4.33.0 kernel (axioms: propext, Classical.choice, Q
               "it is tied to /repo on every run by tables regenerated from the working tree (dumper) and by a differential "
               "correspondence check (implementation vs model vs spec). See DESIGN.md section 5.")
 
+def claim(text, design, technique):
+    return dict(text=text, design_ref=design, technique=technique)
+
+
 CLAIMED = {
-    "C18": dict(
-        text="Lean theorems over unbounded Int / arbitrary byte strings: CScriptNum::serialize and set_vch (modelled line by line) are mutually "
-             "inverse bijections between the integers and the strings the minimal-encoding test accepts; set_vch equals Bitcoin's "
-             "sign-magnitude value on every byte string; exact length bounds (4 bytes <-> |n|<2^31, 5 <-> 2^39); the constructor accepts "
-             "exactly size<=max and (minimal if required). Tie to the code: differential run of the real CScriptNum/Value code against the "
-             "compiled model on all strings of length 0..2 (quick) / 0..4 (thorough, 2^32 strings) and dense integer ranges.",
-        design_ref="DESIGN.md section 6 (C18)",
-        technique="Lean 4 proof (induction on little-endian digits) + differential correspondence, exhaustive on <=4-byte strings in thorough tier",
-    ),
+    "C01": claim(
+        "Lean theorems, for every script (any length), stack, flag set, signature version and checker: the gate HasValidOps equals the "
+        "domain of the property (gate_is_domain); one StepScript of the model refines one instruction of the specification for every "
+        "opcode of the switch (execOpcode_refines: 114 opcode lemmas incl. signature opcodes, FindAndDelete, BIP66 DER, the compressed "
+        "condition stack), whole-script stepping refines the specification's evaluation state by state with the same error at the same "
+        "operation (runOps_refines, C01_trace). The model is tied to the C++ by a three-way differential run (implementation, model, "
+        "spec) after every executed operation: spec-guided deep scripts, every opcode x boundary operands, flag toggles, all scripts of <=2 bytes.",
+        "DESIGN.md section 6 (C01)", "Lean 4 refinement proof (model ≈ spec per opcode, induction over the script) + per-step differential correspondence"),
+    "C04": claim(
+        "Lean theorem C04_rewind_exact: for every session and every history over {step, rewind} of any length in which no step fails, the "
+        "state reached equals — as a whole record, including condition stack, code-separator position, signature budget, op count and the "
+        "history vectors — the state of a fresh session advanced by the net number of accepted steps; refused rewinds change nothing; a rewind "
+        "is accepted exactly when not at the start of the current script. Correspondence: complete {step,rewind} history trees to depth 10/14 "
+        "on scripts exercising each state component, random walks, all compared with the implementation after every command.",
+        "DESIGN.md section 6 (C04)", "Lean 4 invariant proof over command histories + exhaustive bounded history-tree correspondence"),
+    "C07": claim(
+        "Lean theorems: Value::operator>> emits the opcode byte for an opcode, the minimal push of the script number for an integer and the "
+        "minimal push of exactly the given bytes for data (int_emits_minimal, data_emits_minimal); the minimal push decodes to one instruction "
+        "that places exactly those bytes and satisfies the minimal-push rule (minimal_push_decodes, any length < 2^32). The lexical layer "
+        "(token classification, bracket nesting) is tied by correspondence against an independent grammar-based spec compiler: every opcode "
+        "name, all OP_xNN, all 1-2 byte hex literals, integer boundaries, nesting to depth 8, through Value::parse_args in-process and the btcc binary. "
+        "Known finding: OP_xff.",
+        "DESIGN.md section 6 (C07)", "Lean 4 proof of the emission layer + grammar-directed differential correspondence for the lexer"),
+    "C08": claim(
+        "Lean theorems: output/exit status are a function of the run-to-completion outcome (C08_output), run-to-completion equals stepping "
+        "(C08_same_as_stepping), and no operation step ever ends abnormally — success, script error or caught exception only (step_noabn, "
+        "for every opcode, script, stack, flags; C08_no_abnormal_partial: the P2SH hand-over assertion is covered by correspondence only). "
+        "Correspondence: the real btcdeb binary with pipes/ptys as stdin/stdout, script on stdin or argv, -q/--debug/DEBUG_* variants.",
+        "DESIGN.md section 6 (C08)", "Lean 4 proof (Hoare-style no-abnormal-outcome over the model) + process-level differential runs under pipes and ptys"),
+    "C09": claim(
+        "Lean theorems: on the specification every flag only restricts (execInstr_mono, evalScript_mono: success under B implies the identical "
+        "run under any A ⊆ B, for every instruction incl. signature opcodes), transferred to debugger sessions through the C01 refinement "
+        "(C09_mono_session); the svf table and the standard set are the generated tables proved equal to the spec. Correspondence: every "
+        "+/-NAME, random/malformed lists and names up to 1000 characters through svf_parse_flags in-process, --default-flags, end-to-end -f probes, "
+        "inclusion chains of flag sets on execution inputs.",
+        "DESIGN.md section 6 (C09)", "Lean 4 monotonicity proof (simulation between two runs) + differential correspondence of the flag parser"),
+    "C10": claim(
+        "Lean theorems: where each limit sits in a step of the model with its exact bound (push_size_iff, stack_size_iff, opcount_iff, "
+        "script_size_iff, numsize_iff), the code's constants are the consensus numbers (table theorems re-checked against the tree on every run), "
+        "closed-form families for every k on the specification (k x OP_1 succeeds iff n+k<=1000, k x OP_NOP iff c+k<=201, tapscript exempt). "
+        "Correspondence: every limit at L-1, L, L+1, L+2 for each way of reaching it x three signature versions.",
+        "DESIGN.md section 6 (C10)", "Lean 4 proofs (boundary lemmas, induction on k) + generated-table obligations + boundary correspondence"),
+    "C13": claim(
+        "Lean theorems for all byte strings / transactions: parse then serialise reproduces the identical bytes (C13_parse_ser), serialise then "
+        "parse returns the transaction (C13_ser_parse), serTx equals the declarative BIP144 encoding, txid = hash256 of the witness-stripped "
+        "encoding, every strict truncation is rejected, compact sizes are accepted only in canonical form, exact satoshi conversion of decimal amounts. "
+        "Correspondence: the real parse_tx / ParseFixedPoint / Instance::parse_transaction vs model vs spec vs an independent Python encoder on "
+        "doc/txs, generated transactions, truncations, corruptions.",
+        "DESIGN.md section 6 (C13)", "Lean 4 round-trip proofs (parser combinators) + differential correspondence with two independent encoders"),
+    "C16": claim(
+        "Lean theorems: exec never changes position, script, history, flags or signature version (C16_position_untouched, by the frame lemma "
+        "over every opcode), each applied operation is one StepScript and therefore the specification's instruction (C16_first_op via step_refines), "
+        "unknown words are refused before execution. Correspondence: every token of the vocabulary at every prefix of the session family, random "
+        "operation lists, compared with the implementation and with the spec executing the tokens on the abstracted pre-state.",
+        "DESIGN.md section 6 (C16)", "Lean 4 proof (frame lemma + step refinement) + differential correspondence on session prefixes"),
+    "C17": claim(
+        "Lean theorems: each of the 15 re-enabled opcodes refines the specified function on every stack (C17_computes), never ends abnormally "
+        "(C17_total), and without the option fails as DISABLED_OPCODE (or OP_COUNT first) executed or not (C17_disabled_gate). Correspondence: "
+        "exhaustive operand pairs from the boundary value set for each opcode, with/without -z, executed/unexecuted.",
+        "DESIGN.md section 6 (C17)", "Lean 4 refinement proof per opcode + exhaustive boundary-set correspondence"),
+    "C18": claim(
+        "Lean theorems over unbounded Int / arbitrary byte strings: CScriptNum::serialize and set_vch (modelled line by line) are mutually "
+        "inverse bijections between the integers and the strings the minimal-encoding test accepts; that test accepts exactly the unique "
+        "shortest encoding of each value (minimal_iff); set_vch equals Bitcoin's sign-magnitude value on every byte string; exact length bounds "
+        "(4 bytes <-> |n|<2^31, 5 <-> 2^39). Correspondence: all strings of length 0..2 (quick) / 0..4 (thorough, 2^32 strings), dense integer ranges.",
+        "DESIGN.md section 6 (C18)", "Lean 4 proof (induction on little-endian digits) + exhaustive correspondence on <=4-byte strings in the thorough tier"),
 }
 
 NOT_YET = {}
